@@ -9,6 +9,7 @@ import (
 	"fmt"
 	"sort"
 	"sync"
+	"time"
 
 	"verifharness/sched"
 	"verifharness/trace"
@@ -252,7 +253,15 @@ func (d *bcDriver) opFunc(c *bcClient, pi int, op bcOp) sched.Op {
 			id := d.newID()
 			xid := (c.idx+1)*100 + pi + 1
 			ctx, cancel := context.WithCancel(context.Background())
-			defer cancel()
+			if op.Op == "wait" && op.C && id%3 == 0 {
+				// this context ends by its deadline (virtual time): ctx.Err() is then DeadlineExceeded,
+				// which Wait must not hand out (nil, the predicate's error or context.Canceled only)
+				ctx, cancel = context.WithDeadline(context.Background(), time.Now().Add(time.Hour))
+				defer cancel()
+				cancel = func() { x.Tick(2 * time.Hour) } // (only ever called by the controller's cancel move)
+			} else {
+				defer cancel()
+			}
 			c.cancel, c.canc, c.canCanc = cancel, false, op.C
 			perr := errors.New("predicate error")
 			if id%2 == 0 {
